@@ -372,8 +372,6 @@ Section NonMall.
     Bool.eqb (N.ltb t1 500000000) (N.ltb t2 500000000) = true.
   Hypothesis Hrel_unit : forall t1 t2, se_older se t1 = true -> se_older se t2 = true ->
     Bool.eqb (rel_is_time t1) (rel_is_time t2) = true.
-  (* every hash preimage is known to the satisfier *)
-  Hypothesis Hpre : forall kd h, se_pre se kd h = true.
 
   Record invp (ds : satn * satn) (S : list wit) (ml : mall) : Prop := mkInv {
     p_hd : held se (fst ds);
@@ -642,9 +640,9 @@ Section NonMall.
     - apply lf_du; [repeat split | apply held_const | apply ios_imp | apply soi_imp|]. intros Hn. apply H in Hn. apply Nat.ltb_lt in Ec. lia.
     - apply lf_du; [repeat split | apply held_const | right; reflexivity | discriminate | reflexivity].
   Qed.
-  Lemma lf_hash_gen kd h S : invp (sd_hash se kd h) S (mkMall DUnknown false true).
+  Lemma lf_hash_gen kd h S : se_pre se kd h = true -> invp (sd_hash se kd h) S (mkMall DUnknown false true).
   Proof.
-    unfold sd_hash, w_preimage. rewrite Hpre. apply lf_hash; [apply held_const | apply held_const | discriminate | reflexivity].
+    intros Hpre. unfold sd_hash, w_preimage. rewrite Hpre. apply lf_hash; [apply held_const | apply held_const | discriminate | reflexivity].
   Qed.
 
   (* ---------- thresh ---------- *)
@@ -729,10 +727,15 @@ Section NonMall.
   (* ---------- the theorem ---------- *)
   Definition inv (m : ms) (t : ty) : Prop := invp (sdn m) (all_sat ke A m) (t_mall t).
 
-  (* threshold bounds (Threshold invariant 1 <= k <= n) and no raw_pk_h *)
+  (* threshold bounds (Threshold invariant 1 <= k <= n), no raw_pk_h, and the satisfier knows the
+     preimage of every hash that appears in the script *)
   Fixpoint nm_wf (m : ms) : Prop :=
     match m with
     | MRawPkH _ => False
+    | MSha256 h => se_pre se HSha256 h = true
+    | MHash256 h => se_pre se HHash256 h = true
+    | MRipemd160 h => se_pre se HRipemd160 h = true
+    | MHash160 h => se_pre se HHash160 h = true
     | MAlt x | MSwap x | MCheck x | MDupIf x | MVerify x | MNonZero x | MZeroNotEqual x => nm_wf x
     | MAndV x y | MAndB x y | MOrB x y | MOrD x y | MOrC x y | MOrI x y => nm_wf x /\ nm_wf y
     | MAndOr a b c => nm_wf a /\ nm_wf b /\ nm_wf c
@@ -767,10 +770,10 @@ Section NonMall.
       + unfold soi. cbn [s_stack]. destruct (se_older se t); discriminate.
       + intros H. unfold all_sat in H. cbn [sd fst] in H. rewrite <- (lk_older _ _ _ _ L) in H. unfold stk. cbn [s_stack].
         destruct (se_older se t); [reflexivity | exfalso; apply H; reflexivity].
-    - inversion Ht; subst. apply lf_hash_gen.
-    - inversion Ht; subst. apply lf_hash_gen.
-    - inversion Ht; subst. apply lf_hash_gen.
-    - inversion Ht; subst. apply lf_hash_gen.
+    - inversion Ht; subst. apply lf_hash_gen, Hwf.
+    - inversion Ht; subst. apply lf_hash_gen, Hwf.
+    - inversion Ht; subst. apply lf_hash_gen, Hwf.
+    - inversion Ht; subst. apply lf_hash_gen, Hwf.
     - (* a *) apply type1 in Ht. destruct Ht as [tx [Hx Hc]]. apply lift1_mall in Hc. rewrite Hc. exact (IHm Hwf tx Hx).
     - (* s *) apply type1 in Ht. destruct Ht as [tx [Hx Hc]]. apply lift1_mall in Hc. rewrite Hc. exact (IHm Hwf tx Hx).
     - (* c *) apply type1 in Ht. destruct Ht as [tx [Hx Hc]]. apply lift1_mall in Hc. rewrite Hc. exact (IHm Hwf tx Hx).
@@ -833,3 +836,294 @@ Section NonMall.
       apply (pick_sigs_a_count ke A se f L Habs_unit Hrel_unit) in H. exact H.
   Qed.
 End NonMall.
+
+(* ---------- every template the model builds can be completed from the linked data ---------- *)
+Section Fillable.
+  Variable ke : keyenv.
+  Variable A : assets.
+  Variable se : senv.
+  Variable f : fill.
+  Hypothesis L : linked ke A se f.
+
+  Definition fok (s : satn) : Prop := forall l, s_stack s = WStack l -> exists bs, fill_all f l = Some bs.
+
+  Lemma fill_app l1 l2 : forall b1 b2, fill_all f l1 = Some b1 -> fill_all f l2 = Some b2 -> fill_all f (l1 ++ l2) = Some (b1 ++ b2).
+  Proof.
+    induction l1 as [|p r IH]; intros b1 b2 H1 H2; cbn [fill_all app] in *.
+    - inversion H1; subst. exact H2.
+    - destruct (fill_ph f p) as [b|]; [|discriminate]. destruct (fill_all f r) as [bs|] eqn:E; [|discriminate].
+      inversion H1; subst. rewrite (IH bs b2 eq_refl H2). reflexivity.
+  Qed.
+  Lemma fok_nostack s : (forall l, s_stack s <> WStack l) -> fok s.
+  Proof. intros H l Hl. exfalso. exact (H l Hl). Qed.
+  Lemma fok_imp : fok IMPOSSIBLE. Proof. apply fok_nostack. discriminate. Qed.
+  Lemma fok_unavail : fok UNAVAILABLE. Proof. apply fok_nostack. discriminate. Qed.
+  Lemma fok_const l b a r : (exists bs, fill_all f l = Some bs) -> fok (mkSat (WStack l) b a r).
+  Proof. intros H l' Hl. cbn in Hl. inversion Hl; subst. exact H. Qed.
+  Lemma fok_concat a b : fok a -> fok b -> fok (concatenate_rev a b).
+  Proof.
+    intros Ha Hb l Hl. apply concat_stack in Hl. destruct Hl as [la [lb [Ea [Eb ->]]]].
+    destruct (Ha la Ea) as [ba Fa]. destruct (Hb lb Eb) as [bb Fb]. exists (bb ++ ba). apply fill_app; assumption.
+  Qed.
+  Lemma fok_min (mall : bool) a b : fok a -> fok b -> fok ((if mall then minimum_mall se else minimum se) a b).
+  Proof. intros Ha Hb l Hl. apply (min_fn_stack se mall) in Hl. destruct Hl; eauto. Qed.
+  Lemma fok_push s p : (exists v, fill_ph f p = Some v) -> fok s -> fok (pushed s p).
+  Proof.
+    intros [v Hv] Hs l Hl. unfold pushed in Hl. cbn [with_stack s_stack] in Hl. destruct (s_stack s) as [ls| |] eqn:E; cbn in Hl; try discriminate.
+    inversion Hl; subst. destruct (Hs ls E) as [bs Hb]. exists (bs ++ [v]). apply fill_app; [exact Hb|]. cbn. rewrite Hv. reflexivity.
+  Qed.
+  Lemma fok_fold l : Forall fok l -> forall acc, fok acc -> fok (fold_left concatenate_rev l acc).
+  Proof. induction 1 as [|x r Hx Hr IH]; intros acc Ha; cbn [fold_left]; [exact Ha|]. apply IH, fok_concat; assumption. Qed.
+  Lemma fok_trivial : fok TRIVIAL. Proof. apply fok_const. exists []. reflexivity. Qed.
+  Lemma fok_flatten l : Forall fok l -> fok (flatten_rev l).
+  Proof. intros H. apply fok_fold; [exact H | apply fok_trivial]. Qed.
+
+  Lemma fok_sig k tl : (exists bs, fill_all f tl = Some bs) -> fok (mkSat (wcombine (w_signature se k) (WStack tl)) true None None).
+  Proof.
+    intros [bs Hb] l Hl. unfold w_signature in Hl. cbn [s_stack] in Hl. destruct (se_sig se k) as [sz|] eqn:E; cbn in Hl; [|discriminate].
+    inversion Hl; subst. destruct (sig_some ke A se f L k sz E) as [sg [_ E2]]. exists (sg :: bs). cbn [app fill_all fill_ph]. rewrite E2, Hb. reflexivity.
+  Qed.
+  Lemma take_avail_fill ks : forall k, exists bs, fill_all f (take_avail se k ks) = Some bs.
+  Proof.
+    induction ks as [|key r IH]; intros k; cbn [take_avail]; [exists []; reflexivity|].
+    destruct (se_sig se key) as [sz|] eqn:E; [|apply IH]. destruct k as [|k']; [apply IH|].
+    destruct (sig_some ke A se f L key sz E) as [sg [_ E2]]. destruct (IH k') as [bs Hb]. exists (sg :: bs). cbn [fill_all fill_ph]. rewrite E2, Hb. reflexivity.
+  Qed.
+  Lemma multi_a_fill_fill ks : forall k, exists bs, fill_all f (multi_a_fill se k ks) = Some bs.
+  Proof.
+    induction ks as [|key r IH]; intros k; cbn [multi_a_fill]; [exists []; reflexivity|].
+    destruct (se_sig se key) as [sz|] eqn:E.
+    - destruct k as [|k'].
+      + destruct (IH 0%nat) as [bs Hb]. exists ([] :: bs). cbn [fill_all fill_ph]. rewrite Hb. reflexivity.
+      + destruct (sig_some ke A se f L key sz E) as [sg [_ E2]]. destruct (IH k') as [bs Hb]. exists (sg :: bs). cbn [fill_all fill_ph]. rewrite E2, Hb. reflexivity.
+    - destruct (IH k) as [bs Hb]. exists ([] :: bs). cbn [fill_all fill_ph]. rewrite Hb. reflexivity.
+  Qed.
+  Lemma fok_multi k ks : fok (fst (sd_multi se k ks)) /\ fok (snd (sd_multi se k ks)).
+  Proof.
+    unfold sd_multi. cbv zeta. destruct (Nat.ltb _ _); cbn [fst snd]; (split; [apply fok_const; eexists; apply fill_repeat_zero|]); [apply fok_imp|].
+    apply fok_const. destruct (take_avail_fill ks (N.to_nat k)) as [bs Hb]. exists ([] :: bs). cbn [fill_all fill_ph]. rewrite Hb. reflexivity.
+  Qed.
+  Lemma fok_multi_a k ks : fok (fst (sd_multi_a se k ks)) /\ fok (snd (sd_multi_a se k ks)).
+  Proof.
+    unfold sd_multi_a. cbv zeta. destruct (Nat.ltb _ _); cbn [fst snd]; (split; [apply fok_const; eexists; apply fill_repeat_zero|]); [apply fok_imp|].
+    apply fok_const. apply multi_a_fill_fill.
+  Qed.
+  Lemma fok_hash kd h : fok (fst (sd_hash se kd h)) /\ fok (snd (sd_hash se kd h)).
+  Proof.
+    unfold sd_hash, w_preimage. cbn [fst snd]. split; [apply fok_const; eexists; reflexivity|].
+    destruct (se_pre se kd h) eqn:E; [|apply fok_nostack; discriminate]. apply fok_const.
+    apply (lk_pre_avail _ _ _ _ L) in E. cbn [fill_all fill_ph]. rewrite (lk_pre _ _ _ _ L). destruct (look A kd h); [eexists; reflexivity | contradiction].
+  Qed.
+  Lemma fok_time (ok rhs : bool) t (isabs : bool) : fok (fst (sd_time ok rhs t isabs)) /\ fok (snd (sd_time ok rhs t isabs)).
+  Proof.
+    unfold sd_time. cbn [fst snd]. split; [apply fok_imp|].
+    destruct isabs, ok; try (apply fok_const; exists []; reflexivity); destruct rhs; apply fok_nostack; discriminate.
+  Qed.
+
+  Theorem model_fillable (mall rhs : bool) : forall m,
+    fok (fst (sat_dissat ke se mall rhs m)) /\ fok (snd (sat_dissat ke se mall rhs m)).
+  Proof.
+    assert (P1 : exists v, fill_ph f PhPushOne = Some v) by (eexists; reflexivity).
+    assert (P0 : exists v, fill_ph f PhPushZero = Some v) by (eexists; reflexivity).
+    assert (Z : fok push_0) by (apply fok_const; eexists; reflexivity).
+    induction m using ms_ind'; cbn [sat_dissat]; cbv zeta.
+    - split; [apply fok_imp | apply fok_trivial].
+    - split; [apply fok_trivial | apply fok_imp].
+    - unfold sd_pk_k. cbn [fst snd]. split; [exact Z|]. intros l Hl. cbn [s_stack] in Hl. unfold w_signature in Hl.
+      destruct (se_sig se k) as [sz|] eqn:E; [|discriminate]. inversion Hl; subst.
+      destruct (sig_some ke A se f L k sz E) as [sg [_ E2]]. exists [sg]. cbn. rewrite E2. reflexivity.
+    - unfold sd_pk_h. cbn [fst snd]. split; [apply fok_const; eexists; reflexivity|]. apply fok_sig. eexists. reflexivity.
+    - split; apply fok_imp.
+    - apply fok_time.
+    - apply fok_time.
+    - apply fok_hash. - apply fok_hash. - apply fok_hash. - apply fok_hash.
+    - exact IHm. - exact IHm. - exact IHm.
+    - destruct (sat_dissat ke se mall rhs m) as [d0 sub]. destruct IHm as [_ Hs]. split; [exact Z | apply (fok_push sub PhPushOne P1 Hs)].
+    - destruct (sat_dissat ke se mall rhs m) as [d0 sub]. destruct IHm as [_ Hs]. split; [apply fok_imp | exact Hs].
+    - destruct (sat_dissat ke se mall rhs m) as [d0 sub]. destruct IHm as [_ Hs]. split; [exact Z | exact Hs].
+    - exact IHm.
+    - destruct (sat_dissat ke se mall rhs m1) as [ld ls], (sat_dissat ke se mall rhs m2) as [rd rs]. destruct IHm1 as [H1 H2], IHm2 as [H3 H4]. cbn [fst snd] in *.
+      split; apply fok_concat; assumption.
+    - destruct (sat_dissat ke se mall rhs m1) as [ld ls], (sat_dissat ke se mall rhs m2) as [rd rs]. destruct IHm1 as [H1 H2], IHm2 as [H3 H4]. cbn [fst snd] in *.
+      split; apply fok_concat; assumption.
+    - destruct (sat_dissat ke se mall rhs m1) as [ad asat], (sat_dissat ke se mall rhs m2) as [bd bs], (sat_dissat ke se mall rhs m3) as [cd cs].
+      destruct IHm1 as [H1 H2], IHm2 as [H3 H4], IHm3 as [H5 H6]. cbn [fst snd] in *.
+      split; [apply fok_concat; assumption | apply fok_min; apply fok_concat; assumption].
+    - destruct (sat_dissat ke se mall rhs m1) as [ld ls], (sat_dissat ke se mall rhs m2) as [rd rs]. destruct IHm1 as [H1 H2], IHm2 as [H3 H4]. cbn [fst snd] in *.
+      split; [apply fok_concat; assumption | apply fok_min; apply fok_concat; assumption].
+    - destruct (sat_dissat ke se mall rhs m1) as [ld ls], (sat_dissat ke se mall rhs m2) as [rd rs]. destruct IHm1 as [H1 H2], IHm2 as [H3 H4]. cbn [fst snd] in *.
+      split; [apply fok_concat; assumption | apply fok_min; [assumption | apply fok_concat; assumption]].
+    - destruct (sat_dissat ke se mall rhs m1) as [ld ls], (sat_dissat ke se mall rhs m2) as [rd rs]. destruct IHm1 as [H1 H2], IHm2 as [H3 H4]. cbn [fst snd] in *.
+      split; [apply fok_imp | apply fok_min; [assumption | apply fok_concat; assumption]].
+    - destruct (sat_dissat ke se mall rhs m1) as [ld ls], (sat_dissat ke se mall rhs m2) as [rd rs]. destruct IHm1 as [H1 H2], IHm2 as [H3 H4]. cbn [fst snd] in *.
+      split; apply fok_min; first [apply (fok_push _ PhPushOne P1) | apply (fok_push _ PhPushZero P0)]; assumption.
+    - rewrite ds_thresh. set (ds := map (sat_dissat ke se mall rhs) xs). cbn [fst snd].
+      assert (Hd : Forall fok (map fst ds) /\ Forall fok (map snd ds)).
+      { unfold ds. clear -H. induction H as [|x r [Hx1 Hx2] Hr [IH1 IH2]]; cbn [map]; split; constructor; assumption. }
+      destruct Hd as [Hd Hs].
+      assert (Hsw : forall c, Forall fok (swap_in c (map fst ds) (map snd ds))).
+      { intros c. apply swap_in_forall; intros i Hi _; unfold nth_sat.
+        - destruct (nth_in_or_default i (map snd ds) IMPOSSIBLE) as [G|G]; [rewrite Forall_forall in Hs; apply Hs, G | rewrite G; apply fok_imp].
+        - apply forall_nth; assumption. }
+      split; [apply fok_flatten, Hd|].
+      destruct (N.eqb k (N.of_nat (length xs))); [apply fok_flatten, Hs|]. destruct mall.
+      + unfold thresh_mall. cbv zeta. apply fok_flatten, Hsw.
+      + unfold thresh_nonmall. cbv zeta. destruct (is_imp _); [apply fok_imp|]. destruct (negb _ && negb _); [apply fok_unavail|]. apply fok_flatten, Hsw.
+    - apply fok_multi. - apply fok_multi. - apply fok_multi_a. - apply fok_multi_a.
+  Qed.
+
+  Corollary satisfy_of_stack (mall rhs : bool) m :
+    is_stack (s_stack (snd (sat_dissat ke se mall rhs m))) = true -> exists bs, satisfy ke se f mall rhs m = Some bs.
+  Proof.
+    intros H. unfold satisfy. destruct (s_stack (snd (sat_dissat ke se mall rhs m))) as [l| |] eqn:E; try discriminate.
+    destruct (model_fillable mall rhs m) as [_ G]. exact (G l E).
+  Qed.
+End Fillable.
+
+(* ---------- statements ---------- *)
+Definition locks_compatible (se : senv) : Prop :=
+  (forall t1 t2, se_after se t1 = true -> se_after se t2 = true -> Bool.eqb (N.ltb t1 500000000) (N.ltb t2 500000000) = true) /\
+  (forall t1 t2, se_older se t1 = true -> se_older se t2 = true -> Bool.eqb (rel_is_time t1) (rel_is_time t2) = true).
+
+(* malleable mode, every fragment nesting (k-of-n thresholds included) *)
+Theorem mall_satisfy_complete (ke : keyenv) (A : assets) (se : senv) (f : fill) :
+  linked ke A se f -> locks_compatible se ->
+  forall (rhs : bool) (m : ms), thresh_fit ke se rhs m ->
+    all_sat ke A m <> [] -> exists bs, satisfy ke se f true rhs m = Some bs.
+Proof.
+  intros HL [Ha Hr] rhs m Hfit Hne. apply (satisfy_of_stack ke A se f HL).
+  destruct (mall_complete_thresh ke A se f HL Ha Hr rhs m Hfit) as [_ [_ [_ Hs]]]. exact (Hs Hne).
+Qed.
+
+(* non-malleable mode: sane scripts (typed, non-malleable; the root is safe, hence root_has_sig = true),
+   every hash preimage of the script known (inside nm_wf) *)
+Theorem nonmall_complete (ke : keyenv) (A : assets) (se : senv) (f : fill) :
+  linked ke A se f -> locks_compatible se ->
+  forall (m : ms) (t : ty), nm_wf se m -> type_of m = ROk t -> m_nm (t_mall t) = true ->
+    let s := snd (sat_dissat ke se false true m) in
+    s_stack s <> WUnavailable /\
+    (m_signed (t_mall t) = true -> is_imp (s_stack s) = true \/ s_has_sig s = true) /\
+    (all_sat ke A m <> [] -> is_stack (s_stack s) = true).
+Proof.
+  intros HL [Ha Hr] m t Hwf Ht Hnm s. pose proof (nonmall_inv ke A se f HL Ha Hr m Hwf t Ht) as G.
+  split; [exact (p_soi _ _ _ _ G Hnm)|]. split; [exact (p_sig _ _ _ _ G) | exact (p_tab _ _ _ _ G Hnm)].
+Qed.
+
+Theorem nonmall_dissat (ke : keyenv) (A : assets) (se : senv) (f : fill) :
+  linked ke A se f -> locks_compatible se ->
+  forall (m : ms) (t : ty), nm_wf se m -> type_of m = ROk t ->
+    let d := fst (sat_dissat ke se false true m) in
+    (m_dissat (t_mall t) = DNone -> is_imp (s_stack d) = true \/ s_has_sig d = true) /\
+    (m_nm (t_mall t) = true -> m_dissat (t_mall t) = DUnique ->
+       is_stack (s_stack d) = true /\ s_has_sig d = false /\ s_abs d = None /\ s_rel d = None).
+Proof.
+  intros HL [Ha Hr] m t Hwf Ht d. pose proof (nonmall_inv ke A se f HL Ha Hr m Hwf t Ht) as G.
+  split; [exact (p_dn _ _ _ _ G) | exact (p_du _ _ _ _ G)].
+Qed.
+
+Theorem nonmall_satisfy_complete (ke : keyenv) (A : assets) (se : senv) (f : fill) :
+  linked ke A se f -> locks_compatible se ->
+  forall (m : ms) (t : ty), nm_wf se m -> type_of m = ROk t ->
+    m_nm (t_mall t) = true -> m_signed (t_mall t) = true ->
+    all_sat ke A m <> [] -> exists bs, satisfy ke se f false (m_signed (t_mall t)) m = Some bs.
+Proof.
+  intros HL HC m t Hwf Ht Hnm Hs Hne. rewrite Hs. apply (satisfy_of_stack ke A se f HL).
+  destruct (nonmall_complete ke A se f HL HC m t Hwf Ht Hnm) as [_ [_ G]]. exact (G Hne).
+Qed.
+
+(* ---------- non-vacuity and tightness of the hypotheses (concrete instances) ---------- *)
+(* keys 0,1,2; the caller holds signatures for every key except key 1 *)
+Local Open Scope N_scope.
+Definition c02x_ke : keyenv := mkKeyEnv (fun k => [k]) (fun k => [k]) (fun ks => ks).
+Definition c02x_has (k : key) : bool := negb (N.eqb k 1).
+Definition c02x_A (pre : bool) : assets :=
+  mkAssets (fun k => if c02x_has k then Some [k; 7%N] else None)
+           (fun _ => if pre then Some [9%N] else None) (fun _ => if pre then Some [9%N] else None)
+           (fun _ => if pre then Some [9%N] else None) (fun _ => if pre then Some [9%N] else None)
+           (fun _ => false) (fun _ => false).
+Definition c02x_se (pre : bool) : senv :=
+  mkSenv false (fun _ => 34%N) (fun k => if c02x_has k then Some 72%N else None) (fun _ _ => pre) (fun _ => false) (fun _ => false).
+Definition c02x_f (pre : bool) : fill :=
+  mkFill (kb c02x_ke) (a_sig (c02x_A pre)) (fun _ _ => if pre then Some [9%N] else None).
+
+Lemma c02x_linked pre : linked c02x_ke (c02x_A pre) (c02x_se pre) (c02x_f pre).
+Proof.
+  constructor; cbn; try reflexivity.
+  - intros k. destruct (c02x_has k); split; congruence.
+  - intros kd h. destruct kd, pre; reflexivity.
+  - intros kd h. destruct kd, pre; cbn; split; congruence.
+Qed.
+Lemma c02x_locks pre : locks_compatible (c02x_se pre).
+Proof. split; intros t1 t2 H; cbn in H; discriminate. Qed.
+
+(* thresh(2, pk(0), s:pk(1), s:pk(2)) *)
+Definition c02x_thresh : ms := MThresh 2 [MCheck (MPkK 0); MSwap (MCheck (MPkK 1)); MSwap (MCheck (MPkK 2))].
+
+Lemma c02x_thresh_typed : exists t, type_of c02x_thresh = ROk t /\ m_nm (t_mall t) = true /\ m_signed (t_mall t) = true.
+Proof. eexists. split; [vm_compute; reflexivity | split; reflexivity]. Qed.
+Lemma c02x_thresh_table : all_sat c02x_ke (c02x_A true) c02x_thresh = [[[0; 7]; []; [2; 7]]]%N.
+Proof. vm_compute. reflexivity. Qed.
+Lemma c02x_thresh_mall : s_stack (snd (sat_dissat c02x_ke (c02x_se true) true true c02x_thresh)) = WStack [PhSig 2; PhPushZero; PhSig 0].
+Proof. vm_compute. reflexivity. Qed.
+Lemma c02x_thresh_nonmall : s_stack (snd (sat_dissat c02x_ke (c02x_se true) false true c02x_thresh)) = WStack [PhSig 2; PhPushZero; PhSig 0].
+Proof. vm_compute. reflexivity. Qed.
+Lemma c02x_thresh_fit : thresh_fit c02x_ke (c02x_se true) true c02x_thresh.
+Proof.
+  apply fit_of_bound.
+  - intros k. cbn. lia.
+  - intros k sz H. cbn in H. destruct (c02x_has k); inversion H. lia.
+  - vm_compute. reflexivity.
+Qed.
+Lemma c02x_thresh_wf : nm_wf (c02x_se true) c02x_thresh.
+Proof. cbn. repeat split; lia. Qed.
+(* the two completeness theorems apply to it, and their conclusion is the computed witness *)
+Lemma c02x_thresh_satisfy_mall : satisfy c02x_ke (c02x_se true) (c02x_f true) true true c02x_thresh = Some [[2; 7]; []; [0; 7]]%N.
+Proof. vm_compute. reflexivity. Qed.
+Lemma c02x_thresh_satisfy_nonmall : satisfy c02x_ke (c02x_se true) (c02x_f true) false true c02x_thresh = Some [[2; 7]; []; [0; 7]]%N.
+Proof. vm_compute. reflexivity. Qed.
+
+(* The preimage hypothesis of the non-malleable theorem is necessary:
+   and_v(v:pk(2), or_i(pk(0), sha256(H))) is sane (typed, "m", "s"); with both signatures but without
+   the preimage the table has the entry [sig0 1 sig2] while the non-malleable model answers
+   Unavailable (the malleable one returns the stack). *)
+Definition c02x_orhash : ms := MAndV (MVerify (MCheck (MPkK 2))) (MOrI (MCheck (MPkK 0)) (MSha256 [])).
+Theorem nonmall_needs_preimages :
+  exists ke A se f m t, linked ke A se f /\ locks_compatible se /\ type_of m = ROk t /\
+    m_nm (t_mall t) = true /\ m_signed (t_mall t) = true /\ all_sat ke A m <> [] /\
+    s_stack (snd (sat_dissat ke se false true m)) = WUnavailable /\
+    is_stack (s_stack (snd (sat_dissat ke se true true m))) = true.
+Proof.
+  exists c02x_ke, (c02x_A false), (c02x_se false), (c02x_f false), c02x_orhash. eexists.
+  split; [apply c02x_linked|]. split; [apply c02x_locks|]. split; [vm_compute; reflexivity|].
+  split; [reflexivity|]. split; [reflexivity|]. split; [vm_compute; discriminate|]. split; vm_compute; reflexivity.
+Qed.
+
+(* The root must be safe (root_has_sig = true): or_i(pk(0), after(10)) is "m" but not "s"; with the
+   signature and an unmet lock the non-malleable model answers Unavailable although [sig0 1] is in the table. *)
+Theorem nonmall_needs_safe_root :
+  exists ke A se f m t, linked ke A se f /\ locks_compatible se /\ type_of m = ROk t /\
+    m_nm (t_mall t) = true /\ m_signed (t_mall t) = false /\ all_sat ke A m <> [] /\
+    s_stack (snd (sat_dissat ke se false (m_signed (t_mall t)) m)) = WUnavailable.
+Proof.
+  exists c02x_ke, (c02x_A true), (c02x_se true), (c02x_f true), (MOrI (MCheck (MPkK 0)) (MAfter 10)). eexists.
+  split; [apply c02x_linked|]. split; [apply c02x_locks|]. split; [vm_compute; reflexivity|].
+  split; [reflexivity|]. split; [reflexivity|]. split; [vm_compute; discriminate|]. vm_compute. reflexivity.
+Qed.
+
+(* [thresh_fit] is not redundant in the MODEL (which has unbounded sizes): a Taproot environment claiming
+   a 2^63-byte signature makes thresh(1, pk(0), s:pk(1)) pick the child without a satisfaction.  No real
+   environment does this (fit_of_bound); the hypothesis is the absence of i64 overflow. *)
+Theorem mall_thresh_fit_needed :
+  exists ke A se f m, linked ke A se f /\ locks_compatible se /\ all_sat ke A m <> [] /\
+    s_stack (snd (sat_dissat ke se true true m)) = WImpossible.
+Proof.
+  exists c02x_ke, (c02x_A true),
+    (mkSenv true (fun _ => 33%N) (fun k => if c02x_has k then Some 9223372036854775808%N else None) (fun _ _ => true) (fun _ => false) (fun _ => false)),
+    (c02x_f true), (MThresh 1 [MCheck (MPkK 1); MSwap (MCheck (MPkK 0))]).
+  split.
+  - constructor; cbn; try reflexivity.
+    + intros k. destruct (c02x_has k); split; congruence.
+    + intros kd h. destruct kd; reflexivity.
+    + intros kd h. destruct kd; cbn; split; congruence.
+  - split; [split; intros t1 t2 H; cbn in H; discriminate|]. split; [vm_compute; discriminate | vm_compute; reflexivity].
+Qed.
